@@ -95,7 +95,7 @@ P.verify(fn(
     'sfc_models.utils.list_tokens',
     args=dict(s=STR), returns=List(STR),
     hints={('empty_list', 'result'): STR},
-    loops={0: LoopSpec(header=TOKLOOP, index='i', modifies=['len', 'el.S'], invariants=[
+    loops={0: LoopSpec(header=TOKLOOP, index='i', modifies=['len.S', 'el.S'], invariants=[
         ('bounds', '0 <= i and i <= ntok(s)'),
         ('token_list_kept', 'fresh(g) and fresh(result) and g is not result and len(g) == ntok(s) and '
                             'all(g[j][0] == toknum(s, j) and g[j][1] == tokval(s, j) for j in range(0, ntok(s)))'),
@@ -147,7 +147,7 @@ def renamed_one(ctx, s, tgt, rep):
 
 def lookup_arrays(st, d):
     kty, vty = st.dict_types(d)
-    H = z3.Select(st.heap[st._dh(kty)], d.t)
+    H = z3.Select(st.heap[st._dh(kty, vty)], d.t)
     Vv = z3.Select(st.heap[st._dv(kty, vty)], d.t)
     return H, Vv
 
@@ -162,7 +162,7 @@ def renamed(ctx, s, lookup):
 
 
 def token_loop(elementwise):
-    return {0: LoopSpec(header=TOKLOOP, index='i', modifies=['len', 'el.*'], invariants=[
+    return {0: LoopSpec(header=TOKLOOP, index='i', modifies=['len.*', 'el.*'], invariants=[
         ('bounds', '0 <= i and i <= ntok(s)'),
         ('token_list_kept', 'fresh(g) and fresh(result) and g is not result and len(g) == ntok(s) and '
                             'all(g[j][0] == toknum(s, j) and g[j][1] == tokval(s, j) for j in range(0, ntok(s)))'),
@@ -251,14 +251,14 @@ def block_inv(ctx, blk):
     st = ctx.st
     d = st.get_field(blk, 'Equations')
     kty, vty = st.dict_types(d)
-    H = z3.Select(st.heap[st._dh(kty)], d.t)
+    H = z3.Select(st.heap[st._dh(kty, vty)], d.t)
     Dv = z3.Select(st.heap[st._dv(kty, vty)], d.t)
     k, k2 = z3.String(fresh_name('k')), z3.String(fresh_name('k2'))
     j = z3.Int(fresh_name('j'))
     eqr = z3.Select(Dv, k)
     TLf = st.heap[st.field_family('Equation', 'TermList')[0]]
     tl = z3.Select(TLf, eqr)
-    n = z3.Select(st._len_arr() if False else st.H('len'), tl)
+    n = z3.Select(st._len_arr(Ref('Term')), tl)
     E = z3.Select(st.heap[st.el_family(Ref('Term'))], tl)
     O, Pz = (st.heap[st.field_family('Term', f)[0]] for f in ('owner_', 'pos_'))
     B, Sm = (st.heap[st.field_family('Term', f)[0]] for f in ('IsBlob', 'IsSimple'))
